@@ -1166,6 +1166,13 @@ def rule_r20(prog, res):
                             'descendant registry read not found')
 
 
+def rule_r21(prog, res):
+    from . import c15
+    from ..report import Result
+    res.share('R21', 'the registry of descendants a wrapper key is looked up '
+              'in is transitive (C15-R13)', 'C15', c15.rule_r13, prog, Result)
+
+
 def run(prog, res, tier):
     res.run_rule(rule_r1, prog, res)
     res.run_rule(rule_r2, prog, res)
@@ -1187,6 +1194,7 @@ def run(prog, res, tier):
     res.run_rule(rule_r18, prog, res)
     res.run_rule(rule_r19, prog, res)
     res.run_rule(rule_r20, prog, res)
+    res.run_rule(rule_r21, prog, res)
 
 
 _C = 'spyne/model/complex.py'
